@@ -264,7 +264,72 @@ class Check:
             self.proof_broken.append("forbidden tokens: " + "; ".join(bad_tokens[:5]))
         else:
             self.obligations.append(dict(name="forbidden-token scan over %d files" % len(srcs), kind="audit", ok=True))
+        self.t1_mirrored_code(props_module)
         return not self.proof_broken
+
+    def t1_mirrored_code(self, prop):
+        """T1 for every property: fingerprints of the Go declarations the model mirrors, regenerated from the
+        current tree (tools/extract funcskel:<Cxx>), must equal the blessed ones (theorem MaddyVerif.T1.<Cxx>)."""
+        t1_rel = "MaddyVerif/T1/%s.lean" % prop
+        if not os.path.exists(os.path.join(LEAN, t1_rel)):
+            return
+        thm = "MaddyVerif.T1.%s_T1_mirrored_code_unchanged" % prop
+        gen = "FuncSkel%s.lean" % prop
+        if not self.extract("funcskel:" + prop, gen):
+            return
+        with Lock("lean"):
+            rc, out, dt = sh(["lake", "build", "MaddyVerif.T1." + prop], cwd=LEAN, timeout=1200)
+            audit = ""
+            if rc == 0:
+                a_rel = os.path.join(self.work, "audit_t1.lean")
+                open(a_rel, "w").write("import MaddyVerif.T1.%s\n#print axioms %s\n" % (prop, thm))
+                rc2, audit, _ = sh(["lake", "env", "lean", a_rel], cwd=LEAN, timeout=600)
+                if rc2 != 0:
+                    rc, out = rc2, out + audit
+        self.checker_cmds.append("lake build MaddyVerif.T1." + prop)
+
+        def table(path):
+            try:
+                return dict(re.findall(r'\("([^"]+)", "([0-9a-f]+)"\)', open(path).read()))
+            except OSError:
+                return {}
+
+        g = table(os.path.join(LEAN, "MaddyVerif", "Generated", gen))
+        e = table(os.path.join(LEAN, "MaddyVerif", "Expect", gen))
+        self.stats["t1_mirrored_declarations"] = len(e)
+        if rc == 0:
+            m = re.search(r"depends on axioms: \[([^\]]*)\]", audit.replace("\n", " "))
+            axs = [a.strip() for a in (m.group(1) if m else "").split(",") if a.strip()]
+            extra = [a for a in axs if a not in ALLOWED_AXIOMS]
+            self.obligations.append(dict(name=thm, kind="theorem", ok=not extra, axioms=axs))
+            if extra:
+                self.proof_broken.append(thm + " uses " + ",".join(extra))
+            return
+        changed = sorted(k for k in set(g) | set(e) if g.get(k) != e.get(k))
+        # textual diff of the normalised declarations, for the replay file
+        diff = ""
+        try:
+            import difflib
+
+            def blocks(path):
+                d, cur = {}, None
+                for line in open(path).read().split("\n"):
+                    if line.startswith("==== "):
+                        cur = line[5:]
+                        d[cur] = []
+                    elif cur is not None:
+                        d[cur].append(line)
+                return d
+
+            gb = blocks(os.path.join(LEAN, "MaddyVerif", "Generated", gen + ".txt"))
+            eb = blocks(os.path.join(LEAN, "MaddyVerif", "Expect", gen[:-5] + ".txt"))
+            for k in changed[:4]:
+                diff += "\n".join(list(difflib.unified_diff(eb.get(k, []), gb.get(k, []), "blessed " + k, "current " + k, lineterm="", n=2))[:60]) + "\n"
+        except OSError:
+            pass
+        self.obligations.append(dict(name=thm, kind="theorem", ok=False, detail="declarations whose normalised text differs from the blessed one: " + ", ".join(changed)))
+        self.proof_broken.append(thm + " [" + ", ".join(changed) + "]")
+        self.notes.append("T1 mirrored code changed:\n" + (diff or out[-1500:])[:6000])
 
     def local_imports(self, rel, seen=None):
         seen = seen if seen is not None else set()
